@@ -474,9 +474,12 @@ impl FieldParser {
         input: &[u8],
         template: Template,
     ) -> IResult<&[u8], Vec<BTreeMap<usize, V9FieldPair>>> {
-        let record_count = input
-            .len()
-            .saturating_div(usize::from(template.get_total_size()));
+        // A template whose fields have a total length of zero cannot frame any record.
+        let record_size = usize::from(template.get_total_size());
+        if record_size == 0 {
+            return Err(NomErr::Error(NomError::new(input, ErrorKind::Verify)));
+        }
+        let record_count = input.len() / record_size;
 
         let (remaining, fields) = (0..record_count).fold(
             (input, Vec::new()), // Initial accumulator: (fields, remaining)
